@@ -14,6 +14,15 @@ def monitor(run):
     r = run.r
     for t, e in enumerate(run.trace):
         if e['err']:
+            # whatever was rejected, and wherever in the batch the rejection happened, nothing is lost: the state the
+            # executor is left in still satisfies free + allocated = capacity in every pool
+            for pi, p in enumerate(e.get('pools_after_err') or []):
+                cpu = p['avail_cpu'] + sum(c['cpu'] for c in P.live(p))
+                ram = F(p['avail_ram']) + sum(F(c['ram']) for c in P.live(p))
+                if cpu != p['max_cpu'] or ram != F(p['max_ram']):
+                    yield (f'tick {t} pool {pi}: after the rejected command ({e.get("exc", "")[:80]}) the pool has '
+                           f'{p["avail_cpu"]} CPUs / {p["avail_ram"]} GB free and {cpu - p["avail_cpu"]} CPUs / '
+                           f'{float(ram - F(p["avail_ram"]))} GB allocated, capacity {p["max_cpu"]} / {p["max_ram"]}')
             # an oversubscribing batch must be rejected as a whole: no container of it exists afterwards
             if e['err'] in (X.impl.E_CPU, X.impl.E_RAM) and e.get('pools_after_err') and e.get('pre_pools') \
                     and not e['cmd']['susp']:
